@@ -535,7 +535,7 @@ func kindProto(w *rec.Writer, seed uint64) {
 		stdRec = append(stdRec, rec.L(rec.I(owner), rec.L(ks...)))
 		procs = append(procs, &procT{owner: owner, src: -1, kids: kids, ended: len(kids) == 0})
 	}
-	withCancel := r.Chance(1, 5)
+	withCancel := r.Chance(1, 3)
 	bias := r.Intn(4) // scheduling bias
 	mpc := make([]int, n) // 0 before SignalReady, 1 WaitAll, 2 Sleep, 3 Cleanup, 4 Wake, 5 WaitRec, 6 done
 	closedPos := make([]int, n)
@@ -607,7 +607,7 @@ func kindProto(w *rec.Writer, seed uint64) {
 				}
 			}
 		}
-		if withCancel && !cancelled && r.Chance(1, 25) {
+		if withCancel && !cancelled && r.Chance(1, 12) {
 			en = append(en, action{aCancel, 2, 0})
 		}
 		if len(en) == 0 {
@@ -797,7 +797,9 @@ func (y *yieldDS) Read(ctx context.Context, store string, f storage.ReadFilter, 
 	return y.OpenFGADatastore.Read(ctx, store, f, o)
 }
 
-type cfgT struct{ Chunk, Buf, Procs int }
+// Max > 0: the server's ListObjects max-results; the request then stops early, which cancels the
+// pipeline's context and exercises teardown under cancellation (Close / drain)
+type cfgT struct{ Chunk, Buf, Procs, Max int }
 
 type e2eEnv struct {
 	ds      *yieldDS
@@ -824,7 +826,7 @@ func (e *e2eEnv) srv(c cfgT) *server.Server {
 		server.WithListObjectsBufferCapacity(c.Buf),
 		server.WithListObjectsNumProcs(c.Procs),
 		server.WithListObjectsDeadline(40*time.Second),
-		server.WithListObjectsMaxResults(0),
+		server.WithListObjectsMaxResults(uint32(c.Max)),
 	)
 	e.servers[c] = s
 	return s
@@ -877,11 +879,19 @@ func genModel(r *rec.Rand) (dsl string, types []string, shape string) {
 			}
 		}
 		adminDef := "[user]"
-		switch r.Intn(4) {
+		switch r.Intn(8) {
 		case 0:
 			adminDef = "member"
 		case 1:
 			adminDef = "[user, " + types[r.Intn(k)] + "#member]"
+		case 2:
+			adminDef = "[user] or member"
+		case 3:
+			adminDef = "member or owner"
+		case 4:
+			adminDef = "[user, " + types[r.Intn(k)] + "#admin] or admin from parent"
+		case 5:
+			adminDef = "member from parent"
 		}
 		memberDef := "[" + strings.Join(direct, ", ") + "]"
 		if r.Chance(1, 3) {
@@ -980,7 +990,8 @@ func genTuples(r *rec.Rand, model *openfgav1.AuthorizationModel, types []string,
 	return out
 }
 
-var cfgPool = []cfgT{{1, 1, 1}, {1, 2, 3}, {2, 1, 2}, {3, 8, 1}, {100, 128, 3}, {1, 128, 8}, {2, 2, 2}, {100, 1, 1}}
+var cfgPool = []cfgT{{1, 1, 1, 0}, {1, 2, 3, 0}, {2, 1, 2, 0}, {3, 8, 1, 0}, {100, 128, 3, 0}, {1, 128, 8, 0}, {2, 2, 2, 0}, {100, 1, 1, 0},
+	{1, 1, 1, 1}, {1, 2, 3, 2}, {2, 1, 2, 1}, {100, 128, 3, 1}}
 
 func runE2E(w *rec.Writer, env *e2eEnv, c e2eCase, storeCounter *int) {
 	ctx := context.Background()
@@ -1089,7 +1100,10 @@ func runE2E(w *rec.Writer, env *e2eEnv, c e2eCase, storeCounter *int) {
 		wg.Wait()
 		for _, o := range outs {
 			sort.Strings(o.objs)
-			runs = append(runs, rec.L(rec.I(cfg.Chunk), rec.I(cfg.Buf), rec.I(cfg.Procs), rec.I(o.code), rec.LS(o.objs)))
+			runs = append(runs, rec.L(rec.I(cfg.Chunk), rec.I(cfg.Buf), rec.I(cfg.Procs), rec.I(cfg.Max), rec.I(o.code), rec.LS(o.objs)))
+			if cfg.Max > 0 {
+				w.Stat("e2e_requests_with_max_results", 1)
+			}
 			switch o.code {
 			case 1:
 				w.Stat("e2e_list_error", 1)
